@@ -1,6 +1,80 @@
-(* Props/C09.v -- property theorems for C09 (arbitrary profile bytes). *)
+(* Props/C09.v -- property theorems for C09: arbitrary profile bytes never crash or loop the parser
+   entry points, and validate accepts exactly what build accepts.
+   Model: Model/Cfg.v (Config.next / validate / build / Validate / Build / Groups / Group / String /
+   MarshalJSON of c2/cfg, every Go index and slice expression through idx / slice, which are Panic
+   exactly where Go panics; loops carry fuel = the length of the config and fail with Err EFuel when
+   it runs out).  `bytes c` = every element is in [0,256).  `returns r` = r is neither Panic nor the
+   fuel error: the call comes back with a value or an ordinary error.  All statements are for ALL
+   byte strings (and all offsets / group numbers). *)
 From XMT Require Import Base.Prelude Model.Cfg Proofs.Cfg.
 
-Theorem C09_validate_empty : validate [] = Ok tt.
-Proof. exact validate_nil. Qed.
-Print Assumptions C09_validate_empty.
+(* the stride is computed for every offset inside the config ... *)
+Theorem C09_next_total : forall c i, bytes c -> 0 <= i < len c -> exists n, next c i = Ok n.
+Proof. exact next_total. Qed.
+Print Assumptions C09_next_total.
+
+(* ... outside it the answer is -1 (i = len c is the one offset the callers never pass: Go would index c[len c]) *)
+Theorem C09_next_outside : forall c i, i < 0 \/ len c < i -> next c i = Ok (-1).
+Proof. exact next_out. Qed.
+Print Assumptions C09_next_outside.
+
+(* ... and it is -1 or strictly beyond the current offset: every walker moves forward or stops *)
+Theorem C09_next_progress : forall c i n, bytes c -> 0 <= i < len c -> next c i = Ok n -> n = -1 \/ i < n.
+Proof. exact next_progress. Qed.
+Print Assumptions C09_next_progress.
+
+(* the stride as validate / build / MarshalJSON use it (reset to the end when it is -1, not beyond i, or past the end) *)
+Theorem C09_stride_progress : forall c i n, bytes c -> 0 <= i < len c -> next c i = Ok n -> i < fixn c i n <= len c.
+Proof. exact stride_progress. Qed.
+Print Assumptions C09_stride_progress.
+
+Theorem C09_validate_no_panic : forall c, bytes c -> returns (validate c).
+Proof. exact validate_returns. Qed.
+Print Assumptions C09_validate_no_panic.
+
+(* tlsok: whether Go's certificate / key parsers accept the embedded blobs (outside the model) *)
+Theorem C09_build_no_panic : forall tlsok c, bytes c -> returns (build tlsok c).
+Proof. exact build_returns. Qed.
+Print Assumptions C09_build_no_panic.
+
+Theorem C09_groups_no_panic : forall c, bytes c -> exists n, groups c = Ok n.
+Proof. exact groups_is_ok. Qed.
+Print Assumptions C09_groups_no_panic.
+
+Theorem C09_group_no_panic : forall c p, bytes c -> exists g, group c p = Ok g.
+Proof. exact group_is_ok. Qed.
+Print Assumptions C09_group_no_panic.
+
+Theorem C09_string_no_panic : forall c, bytes c -> returns (string_skel c).
+Proof. exact string_returns. Qed.
+Print Assumptions C09_string_no_panic.
+
+Theorem C09_json_no_panic : forall c, bytes c -> returns (json_skel c).
+Proof. exact json_returns. Qed.
+Print Assumptions C09_json_no_panic.
+
+Theorem C09_marshal_no_panic : forall tlsok c, bytes c -> returns (marshal tlsok c).
+Proof. exact marshal_returns. Qed.
+Print Assumptions C09_marshal_no_panic.
+
+(* validation succeeds exactly when building succeeds, certificate / key PARSING treated as succeeding
+   (tlsok = true), as the property states *)
+Theorem C09_validate_iff_build_bytes : forall c, bytes c -> (validate c = Ok tt <-> exists r, build true c = Ok r).
+Proof. exact validate_iff_build. Qed.
+Print Assumptions C09_validate_iff_build_bytes.
+
+(* non-vacuity: the three inputs that crashed / diverged on the pinned tree are byte strings, and the
+   (repaired) model returns on them; a valid config validates and builds *)
+Example C09_nonvacuous_truncated_host :
+  let c := [160; 0; 6; 97; 98; 99; 100; 101] in
+  bytes_ok c = true /\ validate c = Err EInvalid /\ build true c = Err EInvalid /\ json_skel c = Err EInvalid.
+Proof. vm_compute. repeat split. Qed.
+Example C09_nonvacuous_wc2_walk :
+  let c := [177; 0; 0; 0; 0; 0; 0; 1; 5] in
+  bytes_ok c = true /\ next c 0 = Ok 8 /\ validate c = Err EInvalid /\ groups c = Ok 1.
+Proof. vm_compute. repeat split. Qed.
+Example C09_nonvacuous_valid :
+  let c := [160; 0; 1; 104; 162; 15; 192; 212; 0; 2; 7; 9; 250; 160; 0; 1; 105; 194] in
+  bytes_ok c = true /\ validate c = Ok tt /\ (exists r, build true c = Ok r) /\ groups c = Ok 2
+  /\ group c 1 = Ok [160; 0; 1; 105; 194].
+Proof. vm_compute. repeat split. eexists. reflexivity. Qed.
